@@ -1,6 +1,7 @@
 package storesim
 
 import (
+	"sort"
 	"fmt"
 	"math"
 
@@ -545,6 +546,9 @@ func genC19(seed uint64, tier Tier) *Case {
 	c.Knobs.TotalSize = 1 << 40
 	c.Knobs.FracSize = 1 << 30
 	g.oddTokens = g.r.Bool(0.3)
+	// late arrivals: a sealed fraction then carries a per-minute distribution, so a range that falls into a gap
+	// between its documents intersects the fraction while it is active (borders only) and not once it is sealed
+	g.lateDocs = g.r.Bool(0.4)
 	c.Steps = append(c.Steps, Step{Kind: "start"})
 	nfrac := g.r.Range(2, 5)
 	for i := 0; i < nfrac; i++ {
@@ -568,6 +572,23 @@ func genC19(seed uint64, tier Tier) *Case {
 		s := g.search(true)
 		s.Size = math.MaxInt32
 		s.WithTotal = false
+		if g.lateDocs && g.r.Bool(0.4) {
+			// a range inside the widest gap between two documents (minutes away from both)
+			ms := make([]uint64, 0, len(g.docs))
+			for _, d := range g.docs {
+				ms = append(ms, d.MID)
+			}
+			sort.Slice(ms, func(i, j int) bool { return ms[i] < ms[j] })
+			best := 0
+			for k := 1; k < len(ms); k++ {
+				if ms[k]-ms[k-1] > ms[best+1]-ms[best] {
+					best = k - 1
+				}
+			}
+			if len(ms) > 1 && ms[best+1]-ms[best] > 10*60000 {
+				s.From, s.To = ms[best]+3*60000, ms[best+1]-3*60000
+			}
+		}
 		// ids as the proxy makes them: random version-4 UUIDs
 		a, b := g.r.Uint64(), g.r.Uint64()
 		id := fmt.Sprintf("%08x-%04x-4%03x-%04x-%012x", uint32(a>>32), uint16(a>>16), uint16(a)&0xfff, 0x8000|uint16(b>>48)&0x3fff, b&0xffffffffffff)
